@@ -516,6 +516,17 @@ func (b *builder) processFunction(root *functionNode, props *builderProp) (query
 			}
 			inp = argQuery
 		}
+		if len(root.Args) == 0 {
+			if root.FuncName == "boolean" {
+				return nil, errors.New("xpath: boolean function must have one parameter")
+			}
+			// number() and string() without an argument apply to the context node.
+			argQuery, err := b.processNode(newAxisNode("self", allNode, "", "", "", nil), flagsEnum.None, props)
+			if err != nil {
+				return nil, err
+			}
+			inp = argQuery
+		}
 		switch root.FuncName {
 		case "boolean":
 			qyOutput = &functionQuery{Func: booleanFunc(inp)}
